@@ -27,7 +27,7 @@ func c15BoltCommitted(c *Ctx) {
 	if c.Thorough() {
 		rounds, maxSnaps = 1500, 4500
 	}
-	for _, mode := range []string{"put", "copy", "complete"} {
+	for _, mode := range []string{"put", "copy", "complete", "mkbucket"} {
 		inst, err := impl.New("bolt", c.Tmp)
 		if err != nil {
 			c.mismatch(Mismatch{Kind: "model", Backend: "bolt", Finger: "setup", Impl: err.Error()})
@@ -90,6 +90,15 @@ func c15BoltCommitted(c *Ctx) {
 			atomic.StoreInt64(&started, int64(i))
 			st := 0
 			switch mode {
+			case "mkbucket":
+				// a bucket is created (and the one before last deleted again) while 'k' is rewritten
+				st = inst.Do(impl.Req{Method: "PUT", Path: fmt.Sprintf("/nb-%05d", i)}).Status
+				if st == 200 && i > 2 {
+					inst.Do(impl.Req{Method: "DELETE", Path: fmt.Sprintf("/nb-%05d", i-2)})
+				}
+				if st == 200 {
+					st = put("k", body, i)
+				}
 			case "put":
 				st = put("k", body, i)
 			case "copy":
@@ -151,6 +160,33 @@ func c15BoltCommitted(c *Ctx) {
 				l := si.Do(impl.Req{Method: "GET", Path: "/bkt"})
 				if l.Status != 200 || !strings.Contains(string(l.Body), "<Key>k</Key>") || !strings.Contains(string(l.Body), "<Key>other</Key>") {
 					viol = fmt.Sprintf("listing after restart: %d %s", l.Status, trunc(string(l.Body), 200))
+				}
+			}
+			if viol == "" && mode == "mkbucket" {
+				// the store lists its buckets; every bucket it lists can be listed itself; every bucket
+				// whose creation was acknowledged before the snapshot began (and that was not yet due for deletion) is there
+				lb := si.Do(impl.Req{Method: "GET", Path: "/"})
+				if lb.Status != 200 {
+					viol = fmt.Sprintf("ListBuckets after restart: %d %s", lb.Status, trunc(string(lb.Body), 160))
+				} else {
+					// (bucket j is deleted again by round j+2, which may have started once hi >= j+2)
+					for j := max(s.hi-1, 1); j <= s.lo && viol == ""; j++ {
+						if !strings.Contains(string(lb.Body), fmt.Sprintf("<Name>nb-%05d</Name>", j)) {
+							viol = fmt.Sprintf("bucket nb-%05d (creation acknowledged) is not listed after restart", j)
+						}
+					}
+					rest := string(lb.Body)
+					for viol == "" {
+						i := strings.Index(rest, "<Name>")
+						if i < 0 {
+							break
+						}
+						rest = rest[i+6:]
+						name := rest[:strings.Index(rest, "<")]
+						if x := si.Do(impl.Req{Method: "GET", Path: "/" + name}); x.Status != 200 {
+							viol = fmt.Sprintf("bucket %s is listed after restart but listing it answers %d", name, x.Status)
+						}
+					}
 				}
 			}
 			distinct[g.Header.Get("ETag")] = true
